@@ -10,6 +10,7 @@
 From Coq Require Import List NArith Bool.
 From V.C10 Require Import Model.
 From V.Mgr Require Import DialShape DialShapeProofs Model Caps Ledger LedgerInv.
+From V.Mgr Require LiveRec.
 From V.Tcp Require Model Proofs Theorems Variants VariantTheorems Once Settle.
 From V.C05 Require TcpCompose TrCompose.
 From V.C05 Require TwoCompose TwoEvents TwoCmd TwoTheorems.
@@ -379,6 +380,45 @@ Theorem C05_stuck_only_on_inconsistent_ids :
   (exists p c ts t, state_of m p = Opening c ts /\ In t ts /\ installed L t = false).
 Proof. exact stuck_only_on_inconsistent_ids. Qed.
 Print Assumptions C05_stuck_only_on_inconsistent_ids.
+
+(* ---- accept failures: the transport cannot START a connection the manager accepted (accept()
+   returns Err, or the accept future resolves to Err). coq/Mgr/LiveRec.v: over EVERY history of the
+   environment (Caps.env_ok: ids unique, a close notice names the owner; accept failures of either
+   kind are ordinary events) every connection a peer state records as established is a live
+   connection of that peer in the ledger recomputed from the events ---- *)
+
+(* the invariant "recorded => live" is preserved by every event, accept failures included *)
+Theorem C05_recorded_is_live_step :
+  forall L m l e, Caps.CapInv L m l -> LiveRec.RecInv m l -> Caps.env_ok m l e ->
+  LiveRec.RecInv (fst (step L m e)) (Caps.live_step e (snd (step L m e)) l).
+Proof. exact LiveRec.rec_step. Qed.
+Print Assumptions C05_recorded_is_live_step.
+
+(* never a dead connection: after any history, a peer for which the ledger holds NO live
+   connection (each of its connections failed its accept or was closed) is not recorded as
+   connected — dial / dial_address do not answer AlreadyConnected, the handle gate lets the
+   request through. A roll-back that leaves the connection that never started in the peer state
+   would wedge the peer for ever; it is excluded *)
+Theorem C05_no_dead_connection :
+  forall L es p, Caps.env_trace L init [] es ->
+  let '(m, l) := Caps.grun L init [] es in
+  Caps.of_peer p l = [] -> can_dial (state_of m p) <> GateConnected.
+Proof. exact LiveRec.no_dead_connection. Qed.
+Print Assumptions C05_no_dead_connection.
+
+(* the roll-back of a synchronous accept failure: the connection is not recorded afterwards *)
+Theorem C05_accept_failure_not_recorded :
+  forall L m l p c t lst, Caps.CapInv L m l -> LiveRec.RecInv m l -> lookup c l = None ->
+  ~ Caps.recorded (state_of (fst (step L m (TrEstablished p c t lst true))) p) c.
+Proof. exact LiveRec.accept_failure_not_recorded. Qed.
+Print Assumptions C05_accept_failure_not_recorded.
+
+(* ... and of an accept future that resolves to Err *)
+Theorem C05_accept_future_failure_not_recorded :
+  forall L m l c p b, Caps.CapInv L m l -> LiveRec.RecInv m l -> lookup c (accepting m) = Some (p, b) ->
+  ~ Caps.recorded (state_of (fst (step L m (AcceptDone c false))) p) c.
+Proof. exact LiveRec.accept_future_failure_not_recorded. Qed.
+Print Assumptions C05_accept_future_failure_not_recorded.
 
 (* non-vacuity and the known finding: limits (none, 1): the second outbound connection is
    rejected by the limit at establishment; the peer is settled (repaired) but no report names the
